@@ -10,6 +10,7 @@ import (
 
 // zzWriterSnapshot: addresses of replicas that are writers (mode != ERR) now.
 func (e *zzEnv) zzWriters() []string {
+	e.preRO = e.c.ReadOnly // taken before the operation, with the writer set
 	var w []string
 	for _, r := range e.c.replicas {
 		if r.Mode != types.ERR {
@@ -58,7 +59,10 @@ func (e *zzEnv) zzCheckC02(tag string, W []string, id int, ack bool, kind string
 	}
 	// liveness half of the claim: a failing minority does not surface as an error
 	// when at least one RW replica survives
-	if len(W) > 0 && 2*ok > len(W) && !e.c.ReadOnly {
+	// (the volume was writable when the operation arrived; that it may be read-only
+	// afterwards - the failure took the RW count below the quorum - does not turn the
+	// operation the majority applied into an error)
+	if len(W) > 0 && 2*ok > len(W) && !e.preRO {
 		rwLeft := 0
 		for _, r := range e.c.replicas {
 			if r.Mode == types.RW {
